@@ -14,12 +14,12 @@ PROP = {
         "Yorkie.CompactDocument works on the default project; for the RemoveOnDetach project the harness repeats its three steps (exclusive document lock, FindDocInfoByKey, packs.Compact)",
         "harness reads the `versionvectors` table through the memory DB's unexported go-memdb handle (reflect/unsafe)",
     ],
-    "level_text": "Theorems in Lean for every state, every request with every crafted pack, and every history of requests and compactions (unbounded): compaction is refused iff the document is attached/attaching and not forced, and a failed compaction changes nothing; a successful one raises the epoch by exactly one, nothing else ever changes an epoch, the epoch after a history is the initial one plus the number of successful compactions; a PushPull of a client whose stored epoch differs – push-only or not – adds no row and is answered ErrEpochMismatch with nothing persisted for the client; a stale Detach/Remove succeeds, writes no row, closes the attachment and erases the version-vector row; a fresh attach is answered with every row of the current generation and the head as checkpoint; the log stays serverSeq 1..N and the C04 delivery invariant is re-established across compactions. Tied to the real server by differential replay: compaction at every quiescent point of generated histories (normal, forced) followed by six stale/fresh follow-up mixes, plus real clients with real documents for the content half.",
+    "level_text": "Theorems in Lean for every state, every request with every crafted pack, and every history of requests and compactions (unbounded): compaction is refused iff the document is attached/attaching and not forced, and a failed compaction changes nothing; a successful one raises the epoch by exactly one, nothing else ever changes an epoch, the epoch after a history is the initial one plus the number of successful compactions; a PushPull of a client whose stored epoch differs – push-only or not – adds no row and is answered ErrEpochMismatch with nothing persisted for the client; a stale Detach/Remove succeeds, writes no row, closes the attachment and erases the version-vector row; a fresh attach is answered with every row of the current generation and the head as checkpoint; the log stays serverSeq 1..N and the C04 delivery invariant, no-echo and per-actor client-sequence order are re-established across compactions (generation-aware). Tied to the real server by differential replay: compaction at every quiescent point of generated histories (normal, forced) followed by six stale/fresh follow-up mixes, plus real clients with real documents for the content half.",
     "level_note": "The one defect found (a push-only sync of a stale client was answered ok instead of ErrEpochMismatch) is repaired in /repo; the model follows the repaired tree (switch Server.stalePushOnlyRefused), the old behaviour is kept as a witness theorem. Content preservation is a guard in the model plus an oracle on real documents.",
     "technique": "Lean 4 proof (case analysis over the phase functions, invariants by induction over event histories) + differential replay against an in-process server + content oracle on real documents",
     "partial": [
         "compact_content: the rebuild-compare step is a guard over an abstract content semantics; that the guard's comparison is meaningful for real documents is checked by the cdoc oracle only",
-        "C04's no_echo / per_actor_clientSeq_ordered (ghost generation fields) are not re-established across compactions; log_gapfree and the delivery invariant (delivery_exact, checkpoint bounds) are",
+        "across compactions C04's per_actor_clientSeq_ordered is re-established in the form that survives a compaction (per actor and attachment generation: consecutive client sequences in log order, for an open attachment the last ones up to the stored client sequence – per_actor_clientSeq_consecutive_across_compaction); that they start at 1 is a statement about the log between two compactions (C04). no_echo, log_gapfree and the delivery invariant are re-established in full",
     ],
     "not_modelled": ["snapshot pull branch and the snapshot cache/purge (threshold out of reach)", "housekeeping candidate selection (FindCompactionCandidates) and the cluster RPC hop", "MongoDB store", "concurrency (compaction holds the document lock exclusively; requests hold it shared)"],
     "assumptions": ["client discipline `WellBehaved` for the delivery clauses, as in C04"],
